@@ -17,6 +17,7 @@ def mockFill (ws : Words) (len : Nat) : Option (List Byte × Words) :=
 def elemSize? : String → Option Nat
   | "u8" => some 1 | "u16" => some 2 | "u32" => some 4 | "u64" => some 8 | "u128" => some 16
   | "a3u8" => some 3 | "a5u32" => some 20
+  | "z0" => some 0 | "unit" => some 0 | "rbunit" => some 0
   | "rb0" => some 0 | "rb1" => some 1 | "rb3" => some 3 | "rb8" => some 8 | "rb13" => some 13
   | "rb2" => some 2 | "rb4" => some 4 | "rb4u32" => some 4 | "rb4f32" => some 4 | "rb4u16x2" => some 4
   | "rb8a" => some 8 | "rb8f64" => some 8 | "rb16" => some 16
